@@ -166,18 +166,20 @@ def strBytesSha (s : String) : String := Sha256.hashString s
 /-- the observation lines that depend only on the ids (shared by model and, for cross-checking, judge) -/
 def fileLines (inp : Input) (pid : Array Nat) : Array String :=
   let pb := partitionBytes pid
-  let a := assignmentCsv pid inp.coord
-  let c := cutCsv inp.plainEdges pid inp.coord
   let arows := ",".intercalate ((List.range pid.size).map fun i =>
     s!"{gt pid i}:{(inp.coordI i).1}:{(inp.coordI i).2}")
   let crows := ",".intercalate ((cutEdges inp.plainEdges pid).map fun e =>
     s!"{(inp.coordI e.1).1}:{(inp.coordI e.1).2}>{(inp.coordI e.2).1}:{(inp.coordI e.2).2}")
   #[s!"D pfile len={pb.length} sha={Sha256.hashBytes pb}",
     "D ids=" ++ " ".intercalate (pid.toList.map toString),
-    s!"D afile sha={strBytesSha a} hdr=1 nl=1",
     "D arows=" ++ arows,
-    s!"D cfile sha={strBytesSha c} hdr=1 nl=1",
     "D crows=" ++ crows]
+
+/-- the byte layout of the two CSV files (free: judged through the rows, compared strictly only for drift);
+    these lines come after all `D` lines of a case -/
+def csvShaLines (inp : Input) (pid : Array Nat) : Array String :=
+  #[s!"F afile sha={strBytesSha (assignmentCsv pid inp.coord)} hdr=1 nl=1",
+    s!"F cfile sha={strBytesSha (cutCsv inp.plainEdges pid inp.coord)} hdr=1 nl=1"]
 
 def inputShaLine (inp : Input) : String :=
   s!"D gsha={Sha256.hashBytes inp.graphBytes} csha={Sha256.hashBytes inp.coordBytes}"
@@ -310,7 +312,7 @@ def judgeFiles (inp : Input) (claimLevel : Bool) (impl : Array String) (ref : Re
     | none =>
     -- reports
     let reportFail : Option String :=
-      match findLine impl "D afile ", findLine impl "D cfile ", findLine impl "D arows=", findLine impl "D crows=" with
+      match findLine impl "F afile ", findLine impl "F cfile ", findLine impl "D arows=", findLine impl "D crows=" with
       | some af, some cf, some ar, some cr =>
         if !((words af).contains "hdr=1") then some "assignment file: wrong header line"
         else if !((words cf).contains "hdr=1") then some "cut file: wrong header line"
